@@ -23,6 +23,24 @@ pub fn info() -> PropInfo {
 }
 
 pub fn strategy() -> BoxedStrategy<Case> {
+    // one case in ~3000: an array of more than 2^16 elements with a few hidden ones, selected or not
+    let huge = (huge_array_issue_spec(), any::<u8>()).prop_map(|(issue, sel)| {
+        let selection = match sel % 3 {
+            0 => serde_json::Map::new(),
+            1 => sdjwt_model::tree::select_all(&sdjwt_model::tree::mark(&issue.claims, &issue.strat).unwrap()),
+            _ => {
+                let n = issue.claims["readings"].as_array().unwrap().len();
+                let mut m = serde_json::Map::new();
+                m.insert("readings".into(), serde_json::Value::Array((0..n).map(|i| serde_json::Value::Bool(i % 2 == 0)).collect()));
+                m
+            }
+        };
+        C01Case { issue, selection, kb: None, earlier: vec![] }
+    });
+    prop_oneof![3000 => normal_strategy(), 1 => huge].boxed()
+}
+
+fn normal_strategy() -> BoxedStrategy<Case> {
     (
         issue_spec_strategy(ClaimCfg::FULL, HONEST_PATHS, holder_strategy()),
         choices_strategy(),
